@@ -87,6 +87,11 @@ def render_prog(prog, root: str, log: str) -> str:
         st = stmts[i]
         if st["k"] == "value":
             L.append(f"{st['bind']} = 5")
+        elif st["k"] == "gen":
+            # a task generator: creates its inner @task functions when it runs
+            L += ["@task(is_generator=True)", f"def {st['fname']}():", f"    _log('TAG:{st['tag']}')"]
+            for inner in st["inner"]:
+                L += [f"    @task({wrap_args(inner)})", f"    def {inner['fname']}():", f"        _log('TAG:{inner['tag']}')"]
         elif st["k"] == "wrap":
             o = st["obj"]
             if st.get("bare") and st.get("name") is None and st.get("id") is None and st.get("kwargs") is None:
@@ -137,7 +142,23 @@ def materialise(case, base: Path):
             p.write_text("")
         else:
             p.write_text(render_prog(prog, str(root), log))
+    for name, prog in (case.get("ext") or {}).items():
+        p = base / "ext" / name
+        p.parent.mkdir(parents=True, exist_ok=True)
+        p.write_text(render_prog(prog, str(root), log))
+    for name, target in (case.get("links") or {}).items():
+        os.symlink(str(root / target) if target else str(root), str(base / name))
     return root, log
+
+
+def real_path(case, p: str) -> str:
+    """Path arguments may go through a symbolic link outside the project (`@name`): what they denote."""
+    return (case.get("links") or {})[p[1:]] if p.startswith("@") else p
+
+
+def ptask_file(case, pt, root, base) -> str:
+    kind, name = pt["src"].split(":", 1)
+    return str(Path(root) / name) if kind == "proj" else str(Path(base) / "ext" / name)
 
 
 # ---------------------------------------------------------------------------------------------
@@ -159,7 +180,7 @@ class Server:
             raise common.InfraError("collect worker died")
         res = json.loads(line)
         if "harness_error" in res or res.get("died"):
-            raise common.InfraError("collect worker child failed: " + str(res.get("harness_error", "died"))[-400:])
+            raise common.InfraError("collect worker child failed: " + str(res.get("harness_error", "died"))[-1400:])
         return res
 
     def close(self):
@@ -198,11 +219,14 @@ def run_cases(cases, nworkers=8, hashseed0=0, servers=None):
             base = Path(os.path.realpath(base))
             root, log = materialise(case, base)
             dirs = [str(root)] + [str(root / d) for d in case["dirs"]]
-            job = {"root": str(root), "paths": [str(root / p) if p else str(root) for p in case["paths"]],
+            job = {"root": str(root),
+                   "paths": [str(base / p[1:]) if p.startswith("@") else (str(root / p) if p else str(root)) for p in case["paths"]],
                    "ignore": case["ignore"], "task_files": case["task_files"], "log": log,
-                   "probe_modules": probe_names(case), "listdirs": dirs}
+                   "probe_modules": probe_names(case), "listdirs": dirs,
+                   "ptasks": [dict(pt, file=ptask_file(case, pt, root, base)) for pt in case.get("ptasks") or []]}
             res = servers[i % len(servers)].run(job)
             res["root"] = str(root)
+            res["base"] = str(base)
             return case["id"], res
         finally:
             shutil.rmtree(base, ignore_errors=True)
@@ -289,11 +313,13 @@ def model_lines(case, ob, perm=0, order=0):
             continue
         lines.append(f"collect.prog path={rootp}/{rel} imports={','.join(prog.get('imports', []))} "
                      f"stmts={';'.join(enc_stmt(s) for s in prog['stmts'])}")
-    paths = ",".join(f"{rootp}/{p}" if p else rootp for p in case["paths"])
+    paths = ",".join(f"{rootp}/{p}" if p else rootp for p in (real_path(case, q) for q in case["paths"]))
     tf = case["task_files"] if case["task_files"] is not None else None
     lines.append(f"collect.run root={rootp} paths={paths} ignore={','.join(enc(p) for p in case['ignore'])} "
                  f"taskfiles={','.join(enc(p) for p in (tf if tf is not None else ['task_*.py']))} "
-                 f"preloaded={','.join(ob.get('preloaded', []))} perm={perm}")
+                 f"preloaded={','.join(ob.get('preloaded', []))} perm={perm}"
+                 + (" ptasks=" + ",".join(f"{ptask_file(case, pt, root, ob['base']).lstrip('/')}|{enc(pt['fname'])}|{pt['tag']}"
+                                          for pt in case["ptasks"]) if case.get("ptasks") else ""))
     return lines
 
 
@@ -346,7 +372,8 @@ def oracle_files(case, root: str):
         elif p in files:
             out.add(p)
 
-    for p in case["paths"]:
+    for q in case["paths"]:
+        p = real_path(case, q)
         rec(os.path.join(root, p) if p else root)
     return out
 
@@ -366,6 +393,10 @@ def qualifying(prog):
             wrapped[st["obj"]] = wrapped.get(st["obj"], 0) + 1
         elif st["k"] == "value":
             binds[st["bind"]] = ("value", None)
+        elif st["k"] == "gen":
+            extra_tags = [st["tag"]] + [i["tag"] for i in st["inner"]]
+            tags.update({("gen", t): t for t in extra_tags})
+            wrapped.update({("gen", t): 1 for t in extra_tags})
     out = [tags[o] for o in wrapped]
     for name, (kind, o) in binds.items():
         if kind == "fn" and o not in wrapped and name.startswith("task_"):
@@ -385,7 +416,121 @@ def expected_tags(case, root: str):
         q = qualifying(prog)
         per_file[rel] = q
         exp += q
+    seen = set()
+    for pt in case.get("ptasks") or []:       # programmatic tasks: every distinct function / task object once
+        key = (pt["src"], pt["attr"], pt.get("name"), pt.get("share"))
+        if key not in seen:
+            seen.add(key)
+            exp.append(pt["tag"])
     return sorted(exp), per_file
+
+
+# --- when is a failed collection (exit code 3) legitimate? ----------------------------------------------------------
+# Computed from the generated declaration programs with the *documented* id scheme, independently of pytask and of
+# the Lean model: exit 3 is accepted only if distinct ids really cannot be formed or the project has a real fault.
+
+def declared_ids(prog):
+    """(name group, final id, obj) of the @task functions of one module: unique names stay, functions of a repeated name
+    get name[id] (explicit id), name[i] (no parameters) or name[v1-v2-…] (scalar argument values, else <arg><i>)."""
+    objs = {}
+    order = []
+    for st in prog["stmts"]:
+        if st["k"] == "def":
+            objs[st["obj"]] = {"fname": st["fname"], "params": st["params"], "defaults": st["defaults"], "name": None, "id": None, "kwargs": {}}
+        elif st["k"] == "wrap" and st["obj"] in objs:
+            o = objs[st["obj"]]
+            o["name"] = st["name"] if st.get("name") else o["fname"]
+            o["id"] = st.get("id")
+            o["kwargs"] = st.get("kwargs") or {}
+            order.append(st["obj"])
+        elif st["k"] == "gen":
+            objs[("gen", st["tag"])] = {"fname": st["fname"], "params": [], "defaults": {}, "name": st["fname"], "id": None, "kwargs": {}}
+            order.append(("gen", st["tag"]))
+    groups: dict = {}
+    for ob in order:
+        groups.setdefault(objs[ob]["name"], []).append(ob)
+    out = []
+    for name, obs in groups.items():
+        if len(obs) == 1:
+            out.append((name, name, obs[0]))
+            continue
+        params = objs[obs[0]]["params"]
+        for i, ob in enumerate(obs):
+            o = objs[ob]
+            if o["id"] is not None:
+                out.append((name, f"{name}[{o['id']}]", ob))
+            elif not params:
+                out.append((name, f"{name}[{i}]", ob))
+            else:
+                comps = []
+                for p in params:
+                    v = o["kwargs"].get(p, o["defaults"].get(p))
+                    if v is not None and v[0] in "bifs":
+                        comps.append(str(v[1]))
+                    else:
+                        comps.append(f"{p}{i}")
+                out.append((name, f"{name}[{'-'.join(comps)}]", ob))
+    return out, len(order) != len(set(order))
+
+
+def module_faults(prog):
+    """Reasons why the tasks of one module cannot get distinct ids."""
+    out = []
+    ids, rewrapped = declared_ids(prog)
+    if rewrapped:
+        out.append("one function object wrapped by @task more than once")
+    names = [i for _, i, _ in ids]
+    if len(set(names)) != len(names):
+        out.append("two @task functions get the same id under the documented scheme")
+    wrapped = {st["obj"] for st in prog["stmts"] if st["k"] == "wrap"}
+    binds = {}
+    for st in prog["stmts"]:
+        if st["k"] == "def" and st.get("bind"):
+            binds[st["bind"]] = st["obj"]
+        elif st["k"] == "value":
+            binds[st["bind"]] = None
+    plain = {n for n, o in binds.items() if o is not None and o not in wrapped and n.startswith("task_")}
+    if plain & set(names):
+        out.append("a task_ function and an @task function share a name")
+    return out
+
+
+def failure_reasons(case, root, ob):
+    tf = case["task_files"] if case["task_files"] is not None else ["task_*.py"]
+    reasons = []
+    coll = collision_files(case, ob)
+    collected = set()
+    for f in sorted(oracle_files(case, root)):
+        rel = os.path.relpath(f, root)
+        if rel not in case["files"] or not matches(f, tf):
+            continue
+        collected.add(rel)
+        prog = case["files"][rel]
+        if not rel.endswith(".py"):
+            reasons.append(f"{rel}: matches task_files but is no Python source")
+        if rel in coll:
+            reasons.append(f"{rel}: module name not its own (F12 class)")
+        if prog is None:
+            continue
+        reasons += [f"{rel}: {r}" for r in module_faults(prog)]
+    for rel in collected:
+        prog = case["files"][rel]
+        for h in (prog or {}).get("imports", []):
+            hp = case["files"].get(h + ".py")
+            if hp is not None and any(st["k"] == "wrap" for st in hp["stmts"]) and (h + ".py") not in collected:
+                reasons.append(f"{rel}: imports {h}.py whose @task functions belong to no task module")
+    keys = Counter()
+    seen = set()
+    for pt in case.get("ptasks") or []:
+        keys[(pt["src"], pt["fname"]) if pt.get("kind") != "twp" else ("<twp>", pt["name"])] += 1
+    for rel in collected:
+        prog = case["files"][rel]
+        if prog is not None:
+            for name in {st["bind"] for st in prog["stmts"] if st["k"] == "def" and st.get("bind", "") and st["bind"].startswith("task_")}:
+                keys[("proj:" + rel, name)] += 1
+    if any(pt for pt in case.get("ptasks") or []) and any(c > 1 for k, c in keys.items()):
+        reasons.append("a programmatic task shares file and name with another task")
+    return reasons
 
 
 def tagnum(t):
@@ -465,7 +610,12 @@ def judge(ctx, case, ob):
         ctx.violation(f"build-raised: pytask.build raised {ob['raised']}", rp)
         return False
     if ob["exit"] == 3:
-        return True
+        if failure_reasons(case, root, ob):
+            return True
+        ctx.violation("legal-project-failed: collection failed (exit 3, "
+                      f"{ob.get('fail_excs')}) although every declared function can get its own id and the project has no "
+                      "collection fault", rp)
+        return False
     exp, per_file = expected_tags(case, root)
     got = sorted(tagnum(t["tag"]) for t in ob["tasks"])
     names = [t["name"] for t in ob["tasks"]]
@@ -524,8 +674,17 @@ class Gen:
 
     def unit(self):
         r = self.rng
-        k = r.choices(["plain", "nonprefix", "value", "deco", "loop", "rewrap", "lambda", "partial", "plainlambda", "outside"],
-                      [4, 1, 1, 4, 5, 1, 2, 2, 1, 1])[0]
+        k = r.choices(["plain", "nonprefix", "value", "deco", "loop", "rewrap", "lambda", "partial", "plainlambda", "outside", "interleave"],
+                      [4, 1, 1, 4, 5, 1, 2, 2, 1, 1, 2])[0]
+        if k == "interleave":
+            # functions of one repeated name declared with another @task function in between (legal: ids name[0], name[1])
+            n1, n2 = r.sample(["f", "g", "run", "task_f"], 2)
+            seq = r.choice([[n1, n2, n1], [n1, n2, n1, n2], [n2, n1, n1, n2, n1]])
+            out = []
+            for n in seq:
+                d = self.mkdef(n, None, style="factory")
+                out += [d, self.wrap(d["obj"], n if r.random() < 0.5 else None)]
+            return out
         if k == "plain":
             n = r.choice(["task_a", "task_b", "task_c", "task_f"])
             return [self.mkdef(n, n, style="def")]
@@ -688,6 +847,15 @@ def random_case(rng, cid, focus=None):
         if rng.random() < 0.5:
             paths.append("")
         rng.shuffle(paths)
+    links = {}
+    if rng.random() < 0.12 and focus != "program":
+        # a path argument that goes through a symbolic link outside the project to a directory of the project
+        tgt = rng.choice([""] + dirs) if dirs else ""
+        links["lnk0"] = tgt
+        paths = list(paths) + ["@lnk0"]
+        if rng.random() < 0.6 and tgt not in paths:
+            paths.append(tgt)
+        rng.shuffle(paths)
     ignore = []
     if rng.random() < 0.35:
         pool = ["task_y.py", "sub", "sub/*", "a/*", "*/task_x.py", "b", "task_a*", "*.b.py", "pkg/task_*.py", "x?y", "x.y/*", "*_y", "src/*/task_x.py", "task_m.py",
@@ -703,7 +871,75 @@ def random_case(rng, cid, focus=None):
             if pr is not None:
                 pr["imports"] = []
         paths = [p for p in paths if p != "helper_a.py"] or [""]
-    return {"id": cid, "dirs": dirs, "files": files, "paths": paths, "ignore": ignore, "task_files": task_files}
+    case = {"id": cid, "dirs": dirs, "files": files, "paths": paths, "ignore": ignore, "task_files": task_files}
+    if links:
+        case["links"] = links
+    return case
+
+
+def prog_case(rng, cid):
+    """`build(paths=…, tasks=[…])`: plain functions of a module outside the project and / or of a task module that is also
+    collected through the paths, single or listed twice, optionally as TaskWithoutPath objects."""
+    g = Gen(rng)
+    names = ["task_a", "task_b", "work"]
+    ext = {"progmod.py": {"imports": [], "stmts": [g.mkdef(n, n, style="def") for n in names]}}
+    files = {"task_m.py": {"imports": [], "stmts": [g.mkdef(n, n, style="def") for n in ["task_a", "task_c"]]}}
+    use_paths = rng.random() < 0.6
+    ptasks = []
+
+    def add(src, prog, attr, kind="fn", name=None, share=None):
+        st = next(x for x in prog["stmts"] if x["k"] == "def" and x["fname"] == attr)
+        ptasks.append({"src": src, "attr": attr, "fname": attr, "tag": st["tag"], "kind": kind, "name": name, "share": share})
+
+    mode = rng.choice(["single", "single", "twice", "path+task", "twp", "twp-dup", "two-fns"])
+    if mode == "single":
+        add("ext:progmod.py", ext["progmod.py"], rng.choice(names))
+    elif mode == "twice":
+        a = rng.choice(names)
+        add("ext:progmod.py", ext["progmod.py"], a)
+        if rng.random() < 0.5:
+            add("ext:progmod.py", ext["progmod.py"], rng.choice([n for n in names if n != a]))
+        add("ext:progmod.py", ext["progmod.py"], a)
+    elif mode == "path+task":
+        use_paths = True
+        add("proj:task_m.py", files["task_m.py"], rng.choice(["task_a", "task_c"]))
+    elif mode == "two-fns":
+        for a in rng.sample(names, 2):
+            add("ext:progmod.py", ext["progmod.py"], a)
+    elif mode == "twp":
+        add("ext:progmod.py", ext["progmod.py"], "work", "twp", "t1", 0)
+        add("ext:progmod.py", ext["progmod.py"], "task_a", "twp", "t2", 1)
+    else:
+        add("ext:progmod.py", ext["progmod.py"], "work", "twp", "t1", 0)
+        add("ext:progmod.py", ext["progmod.py"], rng.choice(["work", "task_b"]), "twp", "t1", rng.choice([0, 1]))
+    return {"id": cid, "dirs": [], "files": files if use_paths else {}, "paths": [""], "ignore": [], "task_files": None,
+            "ext": ext, "ptasks": ptasks}
+
+
+def gen_case(rng, cid):
+    """Task generators (oracle only): a generator creates, while it runs, @task functions — with a base name that also
+    exists in a same-named module of another directory, or not."""
+    g = Gen(rng)
+    n = g.obj()
+    inner_names = rng.choice([["task_x"], ["task_x", "task_y"], ["made"], ["task_x", "task_x"]])
+    inner = []
+    for j, nm in enumerate(inner_names):
+        inner.append({"fname": nm, "tag": g.obj(), "name": None, "id": (str(j) if inner_names.count(nm) > 1 else None), "kwargs": None})
+    gen = {"k": "gen", "obj": n, "fname": "task_gen", "tag": n, "inner": inner}
+    stem = rng.choice(["task_m.py", "task_m.py", "task_n.py"])
+    files = {"b/" + stem: {"imports": [], "stmts": [gen]},
+             "a/task_m.py": {"imports": [], "stmts": [g.mkdef(x, x, style="def") for x in rng.choice([["task_x"], ["task_x", "task_z"], ["task_q"]])]}}
+    if rng.random() < 0.4:
+        files["c/task_m.py"] = {"imports": [], "stmts": [g.mkdef("task_x", "task_x", style="def")]}
+    return {"id": cid, "dirs": sorted({os.path.dirname(f) for f in files}), "files": files, "paths": [""], "ignore": [], "task_files": None}
+
+
+def model_applicable(case) -> bool:
+    """The Lean model covers paths, plain programmatic functions and links; task generators and TaskWithoutPath objects
+    are judged by the oracle only."""
+    if any(pt.get("kind") == "twp" for pt in case.get("ptasks") or []):
+        return False
+    return not any(st["k"] == "gen" for pr in case["files"].values() if pr is not None for st in pr["stmts"])
 
 
 def witness_cases():
@@ -798,7 +1034,8 @@ def pmatch_campaign(ctx, n_random):
 
 def canon(case):
     return [sorted(case["dirs"]), {k: (v if v is None else [v.get("imports"), [{kk: vv for kk, vv in s.items() if kk not in ("obj", "tag")} for s in v["stmts"]]])
-                                   for k, v in sorted(case["files"].items())}, case["paths"], case["ignore"], case["task_files"]]
+                                   for k, v in sorted(case["files"].items())}, case["paths"], case["ignore"], case["task_files"],
+            case.get("links"), [[pt["src"], pt["attr"], pt["kind"], pt.get("name"), pt.get("share")] for pt in case.get("ptasks") or []]]
 
 
 def nontrivial(case, ob, exp):
@@ -823,7 +1060,7 @@ def check_module_names(ctx, case, ob, d):
 
 
 def compare_model(ctx, case, ob):
-    if not ctx.use_model:
+    if not ctx.use_model or not model_applicable(case):
         return
     d = ctx.driver()
     d.batch(model_lines(case, ob, 0, 0)[:2])
@@ -885,7 +1122,12 @@ def shrink_violations(ctx, start, budget=60):
                 break
             used += 1
             probe = common.Ctx(ctx.prop, ctx.tier, ctx.seed)
-            ob = run_cases([cand], 1, servers=servers)[cand["id"]]
+            try:
+                ob = run_cases([cand], 1, servers=servers)[cand["id"]]
+            except Exception:  # noqa: BLE001  (an ill-formed candidate, e.g. a programmatic task whose function was deleted)
+                servers[0].close()
+                servers = [Server(ctx.seed * 16)]
+                continue
             judge(probe, cand, ob)
             if ob.get("exit") in (0, 3) and probe.violations and all(x["finding"] is None for x in probe.violations):
                 case = cand
@@ -901,7 +1143,14 @@ def shrink_violations(ctx, start, budget=60):
 
 def shrink_candidates(case):
     files = list(case["files"])
+    used = {pt["src"].split(":", 1)[1] for pt in case.get("ptasks") or [] if pt["src"].startswith("proj:")}
+    for i in range(len(case.get("ptasks") or [])):
+        c = json.loads(json.dumps(case))
+        del c["ptasks"][i]
+        yield c
     for f in files:
+        if f in used:
+            continue
         c = json.loads(json.dumps(case))
         del c["files"][f]
         c["paths"] = [p for p in c["paths"] if p != f]
@@ -944,9 +1193,13 @@ def campaign(ctx):
     cases = corpus_cases()
     have = {c["id"] for c in cases}
     cases += [c for c in witness_cases() if c["id"] not in have]
-    n = ctx.scale(160, 2500)
+    n = ctx.scale(150, 2500)
     for i in range(n):
         cases.append(random_case(rng, f"r{i}"))
+    for i in range(ctx.scale(14, 150)):
+        cases.append(prog_case(rng, f"p{i}"))
+    for i in range(ctx.scale(8, 80)):
+        cases.append(gen_case(rng, f"g{i}"))
     nworkers = 8 if not ctx.thorough else 12
     obs = run_cases(cases, nworkers, hashseed0=ctx.seed * 16)
     start = len(ctx.violations)
